@@ -1,6 +1,6 @@
 (* C04 — Gherkin parsing is faithful: structure, text, tags, step types and line numbers.
    Statements only; proofs are in theories/GherkinProofs.v. *)
-From BV Require Import Base UStr GherkinTypes Gherkin GherkinProofs GherkinRowProofs GherkinBlockProofs GherkinTagProofs GherkinTableProofs GherkinDocProofs GherkinRichProofs GherkinDescrProofs GherkinBgProofs GherkinOutlineProofs GherkinZoom GherkinRuleProofs.
+From BV Require Import Base UStr GherkinTypes Gherkin GherkinProofs GherkinRowProofs GherkinBlockProofs GherkinTagProofs GherkinTableProofs GherkinDocProofs GherkinRichProofs GherkinDescrProofs GherkinBgProofs GherkinOutlineProofs GherkinBgItemsProofs GherkinZoom GherkinRuleProofs.
 From BVGen Require Import GherkinTables.
 
 (* In every one of the languages of behave.i18n, every alias of every structural keyword, written as "<alias>: x", is
@@ -206,14 +206,14 @@ Theorem a_feature_with_outlines_is_parsed_into_exactly_what_was_written :
 Proof. exact a_feature_with_outlines_is_read_back_exactly. Qed.
 Print Assumptions a_feature_with_outlines_is_parsed_into_exactly_what_was_written.
 
-(* Inside a Rule the machine does what it does inside a feature: while a Rule of a feature without background is being
-   read, the state is the image (unzoom) of a state in which the rule's content sits directly in a feature - the rule's
-   name, tags, description and scenarios being that feature's, later Rules being its Rules - and feeding any lines that
-   are no Background lines commutes with that image, the zoomed states staying well shaped *)
+(* Inside a Rule the machine does what it does inside a feature: while a Rule is being read, the state is the image
+   (unzoom) of a state in which the rule's content sits directly in a feature with the same Background - the rule's name,
+   tags, description and scenarios being that feature's, later Rules being its Rules - and feeding any lines that are no
+   Background lines commutes with that image, the zoomed states staying well shaped *)
 Theorem inside_a_rule_the_machine_does_what_it_does_inside_a_feature :
   forall z lines m m',
-  zinv m -> Forall (nobg (m_kw m)) lines -> fold_left feed lines (ROk m) = ROk m' ->
-  fold_left feed lines (ROk (unzoom z m)) = ROk (unzoom z m') /\ zinv m'.
+  zinv z m -> Forall (nobg (m_kw m)) lines -> fold_left feed lines (ROk m) = ROk m' ->
+  fold_left feed lines (ROk (unzoom z m)) = ROk (unzoom z m') /\ zinv z m'.
 Proof. exact run_unzoom. Qed.
 Print Assumptions inside_a_rule_the_machine_does_what_it_does_inside_a_feature.
 
@@ -233,6 +233,58 @@ Theorem a_feature_with_rules_is_parsed_into_exactly_what_was_written :
                    expected_rules rules (1 + length fds + length (flat_map item_lines its))) code).
 Proof. exact a_feature_with_rules_is_read_back_exactly. Qed.
 Print Assumptions a_feature_with_rules_is_parsed_into_exactly_what_was_written.
+
+(* ... with a Background (with steps) in front of scenarios *and* outlines *)
+Theorem a_feature_with_background_and_outlines_is_parsed_into_exactly_what_was_written :
+  forall kw code fline falias fname fds bline balias bname bsteps its,
+  feature_line kw fline falias fname -> Forall (descr_line kw) fds ->
+  background_line kw bline balias bname -> bsteps <> [] ->
+  Forall (fun x => let '(line, t, k, text) := x in step_line kw line t k text) bsteps ->
+  Forall (item_ok kw) its ->
+  let lb := 1 + length fds in
+  exists m',
+    finish_table (fold_left feed (fline :: fds ++ bline :: map (fun x => fst (fst (fst x))) bsteps ++ flat_map item_lines its)
+                            (ROk (init_state code kw VFeature StInitial))) = ROk m' /\
+    m_table m' = None /\
+    option_map fin_feature (m_feat m') =
+    Some (mkPFeat falias fname 1 [] (map strip fds)
+                  (Some (mkPBg balias bname (S lb) (steps_of bsteps (S lb)) []))
+                  (expected_items its (S lb + length bsteps)) code).
+Proof. exact a_feature_with_background_and_outlines_is_read_back_exactly. Qed.
+Print Assumptions a_feature_with_background_and_outlines_is_parsed_into_exactly_what_was_written.
+
+(* ... and the whole shape: description, Background, the feature's scenarios and outlines, then Rules (which inherit the
+   Background and have none of their own) *)
+Theorem a_feature_with_background_items_and_rules_is_parsed_into_exactly_what_was_written :
+  forall kw code fline falias fname fds bline balias bname bsteps its rules,
+  feature_line kw fline falias fname -> Forall (descr_line kw) fds ->
+  background_line kw bline balias bname -> bsteps <> [] ->
+  Forall (fun x => let '(line, t, k, text) := x in step_line kw line t k text) bsteps ->
+  Forall (item_ok kw) its -> Forall (arule_ok kw) rules ->
+  let lb := 1 + length fds in
+  exists m',
+    finish_table (fold_left feed (fline :: fds ++ bline :: map (fun x => fst (fst (fst x))) bsteps ++
+                                  flat_map item_lines its ++ flat_map arule_lines rules)
+                            (ROk (init_state code kw VFeature StInitial))) = ROk m' /\
+    m_table m' = None /\
+    option_map fin_feature (m_feat m') =
+    Some (mkPFeat falias fname 1 [] (map strip fds)
+                  (Some (mkPBg balias bname (S lb) (steps_of bsteps (S lb)) []))
+                  (expected_items its (S lb + length bsteps) ++
+                   expected_rules rules (S lb + length bsteps + length (flat_map item_lines its))) code).
+Proof. exact a_feature_with_background_items_and_rules_is_read_back_exactly. Qed.
+Print Assumptions a_feature_with_background_items_and_rules_is_parsed_into_exactly_what_was_written.
+
+(* non-vacuity: a whole English feature with a feature-level scenario and a tagged Rule meets the hypotheses *)
+Example a_whole_english_feature_with_a_rule_meets_the_hypotheses :
+  let fline := [70; 101; 97; 116; 117; 114; 101; 58; 32; 70]%N in
+  let its := [IScen ([], ([32; 32; 83; 99; 101; 110; 97; 114; 105; 111; 58; 32; 65]%N, [83; 99; 101; 110; 97; 114; 105; 111]%N, [65]%N), [],
+                     [([32; 32; 32; 32; 71; 105; 118; 101; 110; 32; 97; 32; 117; 115; 101; 114]%N, SGiven, [71; 105; 118; 101; 110; 32]%N, [97; 32; 117; 115; 101; 114]%N, None, [])])] in
+  let rules := [([([32; 32; 64; 114]%N, [[114]%N])], ([32; 32; 82; 117; 108; 101; 58; 32; 82]%N, [82; 117; 108; 101]%N, [82]%N), [[32; 32; 32; 32; 97; 98; 111; 117; 116; 32; 116; 104; 101; 32; 114; 117; 108; 101]%N],
+                 [IScen ([], ([32; 32; 32; 32; 83; 99; 101; 110; 97; 114; 105; 111; 58; 32; 66]%N, [83; 99; 101; 110; 97; 114; 105; 111]%N, [66]%N), [],
+                         [([32; 32; 32; 32; 32; 32; 84; 104; 101; 110; 32; 120]%N, SThen, [84; 104; 101; 110; 32]%N, [120]%N, None, [])])])] in
+  feature_line english fline [70; 101; 97; 116; 117; 114; 101]%N [70]%N /\ Forall (item_ok english) its /\ Forall (arule_ok english) rules.
+Proof. exact an_english_feature_with_a_rule. Qed.
 
 (* non-vacuity: an English Rule line; an ordinary step line is no Background line *)
 Example an_english_rule_line :
